@@ -3,7 +3,9 @@
 //! with property monitors for C10.
 //!
 //! stdin, one scenario per line:
-//!   mutex  <runs> <seed> [trace] [choices=c,c,..] | T: l tl al ap ad | T: ...
+//!   mutex  <runs> <seed> [trace] [pol=r|b|p|m] [rawseed=n] [choices=c,c,..] | T: l lh tl al ap ad | T: ...
+//!   (run i uses seed*1000003+i, or rawseed+i; policy r=random b=bursty prefix p=PCT m=mixed;
+//!    choices= replays an explicit schedule, falling back to random when it ends)
 //!   rwlock <runs> <seed> [trace] [choices=c,c,..] | T: r w tr tw ar aw apr apw ad | ...
 //! ops (mutex):  l  = lock(); critical section; unlock      tl = try_lock() (+cs, unlock if Some)
 //!               al = block_on(lock_async()) (+cs, unlock)   ap = create the lock future if the
@@ -94,6 +96,7 @@ struct Scenario {
   trace: bool,
   choices: Option<Vec<usize>>,
   pol: char,
+  rawseed: Option<u64>,
   threads: Vec<Vec<String>>,
 }
 
@@ -114,7 +117,11 @@ fn parse(line: &str) -> Result<Scenario, String> {
   let mut trace = false;
   let mut choices = None;
   let mut pol = 'm';
+  let mut rawseed = None;
   for t in &head[3..] {
+    if let Some(p) = t.strip_prefix("rawseed=") {
+      rawseed = p.parse().ok();
+    }
     if let Some(p) = t.strip_prefix("pol=") {
       pol = p.chars().next().unwrap_or('m');
     }
@@ -131,6 +138,7 @@ fn parse(line: &str) -> Result<Scenario, String> {
     trace,
     choices,
     pol,
+    rawseed,
     threads,
   })
 }
@@ -438,7 +446,10 @@ fn main() {
     let mut traces: Vec<String> = Vec::new();
     let mut starved = 0usize;
     for i in 0..sc.runs {
-      let seed = sc.seed.wrapping_mul(1_000_003).wrapping_add(i as u64);
+      let seed = match sc.rawseed {
+        Some(r) => r.wrapping_add(i as u64),
+        None => sc.seed.wrapping_mul(1_000_003).wrapping_add(i as u64),
+      };
       let policy = match &sc.choices {
         Some(c) => Policy::Replay(c.clone(), seed),
         None => {
